@@ -251,7 +251,7 @@ func validateRecs(dir string, recs []*run.Recorded, st *TraceStats, start time.T
 	st.TraceLines = len(lines) - 1
 	os.WriteFile(filepath.Join(dir, "DigTraceData.tla"), []byte(mod), 0o644)
 	os.WriteFile(filepath.Join(dir, "MCTrace.tla"), []byte("---- MODULE MCTrace ----\nEXTENDS DigTrace\n====\n"), 0o644)
-	cfgText := fmt.Sprintf("SPECIFICATION TraceSpec\nCONSTANTS\n  MaxInv = 1000000\n  MaxFaults = 1000000\n  FaultKinds = {\"err\", \"panic\"}\nINVARIANTS %s\nPROPERTIES %s\nCHECK_DEADLOCK FALSE\n",
+	cfgText := fmt.Sprintf("SPECIFICATION TraceSpec\nCONSTANTS\n  MaxInv = 1000000\n  MaxFaults = 1000000\n  FaultKinds = {\"err\", \"panic\"}\n  FreeOrder = FALSE\nINVARIANTS %s\nPROPERTIES %s\nCHECK_DEADLOCK FALSE\n",
 		strings.Join(allInvariants, " "), "T_"+strings.Join(allActionProps, " T_"))
 	os.WriteFile(filepath.Join(dir, "MCTrace.cfg"), []byte(cfgText), 0o644)
 	preds := map[int]*tracePrediction{}
